@@ -35,8 +35,9 @@ EXPLANATION = (
     "derivative; (R2.3) constants; (R2.4) PAMB writers use the barometric formula of the node's own height, "
     "RE/LAMBDA columns are written from calc_lambda's outputs, get_basic_branch_results maps keys to the right "
     "columns, every (result column, key) pair of every extract_results refers to an existing key and an existing "
-    "result column of the same fluid class; (R2.5) barometric formula, real-gas density, norm factors; (R2.6) "
-    "AREA = D^2*pi/4; (R2.7) _mm/_km columns are scaled by 1000 on their way into the pit; (R2.8, thorough) the "
+    "result column of the same fluid class; (R2.5) barometric formula, real-gas density, norm factors; (R2.6, now part of R2.10: the "
+    "statement-level form evaluated the right-hand side of the AREA store alone and mis-read a local alias of the D column) "
+    "AREA = D^2*pi/4 of the finally stored D; (R2.7) _mm/_km columns are scaled by 1000 on their way into the pit; (R2.8, thorough) the "
     "Jacobian slots are the symbolic derivatives of the residual. The numba twins are tied to the numpy kernels by "
     "C07. (R2.9, shared with C07 R7.1) the numba twins of the hydraulic kernels compute the same residual and reported quantities as the numpy kernels the law is compared with. Decided: the residual driven to zero IS the documented law and reported quantities are wired to it; not "
     "decided: accuracy of a returned solution (C05's tolerance) or correctness of property data.")
@@ -662,5 +663,5 @@ def r2_10(run):
     run.floor(12)
 
 
-RULES = [("R2.1", r2_1), ("R2.2", r2_2), ("R2.3", r2_3), ("R2.4", r2_4), ("R2.5", r2_5), ("R2.6", r2_6), ("R2.7", r2_7), ("R2.9", r2_9), ("R2.10", r2_10)]
+RULES = [("R2.1", r2_1), ("R2.2", r2_2), ("R2.3", r2_3), ("R2.4", r2_4), ("R2.5", r2_5), ("R2.7", r2_7), ("R2.9", r2_9), ("R2.10", r2_10)]
 THOROUGH = [("R2.8", r2_8)]
